@@ -115,11 +115,11 @@ func (NotAllowedStmt) stmt() {}
 // Program is a registration program plus router options.
 type Program struct {
 	Body       []Stmt
-	NotAllowed bool // HandleMethodNotAllowed
-	CacheCap   int  // -1 off
-	PanicHook  bool // install an OnPanic hook (status 500)
+	NotAllowed bool          // HandleMethodNotAllowed
+	CacheCap   int           // -1 off
+	PanicHook  bool          // install an OnPanic hook (status 500)
 	Shared     map[int][]*MW // the application's middleware slice variables (passed whole or as mws[:k]... to groups)
-	Strict     bool // StrictLastSlash
+	Strict     bool          // StrictLastSlash
 
 	// computed by Model()
 	Globals         []*MW
@@ -699,7 +699,6 @@ func (rs *RouteStmt) RequestPath(r *rand.Rand) string {
 	}
 	return strings.ReplaceAll(p, "{gid}", pick(r, []string{"7", "red"}))
 }
-
 
 // progReplacedFallback is a not-found / not-allowed handler that is installed and then replaced by
 // the program's own list: it must never run.
